@@ -382,7 +382,11 @@ def inherit_props(prop, P, results):
     src, dialect = set(inh["from"]), inh.get("dialect")
     ovr = sqlite_overrides() if dialect == "sqlite" else set()
 
+    only = inh.get("only")
+
     def applies(key):
+        if only is not None:
+            return bool(key) and re.search(only, key) is not None
         if not key:
             return True
         k = key[7:] if key.startswith("canary:") else key
